@@ -24,9 +24,11 @@ LM = {v: k for k, v in ML.items()}
 
 SPEC = PropSpec(
     pid="C18",
-    lean_modules=["LabreaProps.C18"],
-    model_files=["LabreaModel/Hook.lean", "LabreaModel/HookLemmas.lean", "LabreaModel/Generated/ClassTable.lean"],
-    drivers=["drv_hook"],
+    lean_modules=["LabreaProps.C18", "LabreaProps.C18Core"],
+    model_files=["LabreaModel/Hook.lean", "LabreaModel/HookLemmas.lean", "LabreaModel/Generated/ClassTable.lean",
+                 "LabreaModel/Value.lean", "LabreaModel/Dotted.lean", "LabreaModel/Resolve.lean", "LabreaModel/Expr.lean",
+                 "LabreaModel/Eval.lean"],
+    drivers=["drv_hook", "driver"],
     trusted_base=[
         "harness/translate_classes.py (ast -> ClassTable.lean); its output is cross-checked against reflection "
         "over the imported package (same classes, same MRO, same functions by qualname and line)",
@@ -1924,7 +1926,21 @@ def classify(payload):
 
 
 def explore(ctx):
-    return run_all(ctx, use_model=True)
+    exp = run_all(ctx, use_model=True)
+    # part 5 (coordinator): the core evaluator model predicts the request log of every operation and the
+    # effect of a substituting handler (lean/LabreaModel/Eval.lean: `Event.req`, `Env.subst`)
+    import coreprops
+    import engine
+    core = engine.explore_core(ctx, coreprops.C18)
+    for f in core.findings:
+        f.payload["part"] = "core"
+    exp.findings += core.findings
+    exp.coverage["core_model_part"] = {k: core.coverage.get(k) for k in
+                                       ("programs", "evaluations", "disagreements_found", "oracle_failures", "distinct_nontrivial", "rule")}
+    for k in ("programs", "evaluations", "distinct_nontrivial"):
+        if isinstance(exp.coverage.get(k), int) and isinstance(core.coverage.get(k), int):
+            exp.coverage[k] += core.coverage[k]
+    return exp
 
 
 def failing_input_search(ctx, why):
@@ -1934,6 +1950,10 @@ def failing_input_search(ctx, why):
 
 
 def replay(ctx, payload):
+    if payload.get("part") == "core" or payload.get("engine") == "core":
+        import coreprops
+        import engine
+        return engine.replay_core(coreprops.C18, payload)
     info, problems = translation()
     if lean_build(SPEC.drivers):          # the generated table is compiled into the driver
         print("(drv_hook does not build on the current tree: model side skipped)")
